@@ -47,6 +47,9 @@ func TestVerifReplay(t *testing.T) {
 	for _, f := range vFailures {
 		t.Errorf("VERIF-FAIL: %s", f)
 	}
+	for _, m := range vMarginal {
+		t.Logf("VERIF-MARGINAL: %s", m)
+	}
 	for _, r := range vReached {
 		t.Logf("VERIF-REACHED: %s", r)
 	}
